@@ -551,6 +551,8 @@ type Record struct {
 
 	// ListedPods: the reconcile got as far as listing pods from the cache (CachePods is then that listing)
 	ListedPods bool
+	// LookupFailed: an injected failure of a claim cache lookup happened during the reconcile
+	LookupFailed bool
 
 	Actions  []*Action
 	Err      error
@@ -680,6 +682,7 @@ func (c *Cluster) reconcile(key string, mode int) *Record {
 
 	c.Log = nil
 	c.snapTaken = false
+	c.lookupFailed = false
 	c.logging = true
 	func() {
 		defer func() {
@@ -736,6 +739,7 @@ func (c *Cluster) reconcile(key string, mode int) *Record {
 	}()
 	c.logging = false
 	rec.ListedPods = c.snapTaken
+	rec.LookupFailed = c.lookupFailed
 	if c.snapTaken {
 		rec.CachePods = c.snap
 		c.snap = nil
